@@ -10,7 +10,7 @@ use vcore::{compile, Check, Labels, Outcome, Plan, Project, Stats, Step, Tape, T
 pub struct C08;
 pub const CHECK: C08 = C08;
 pub fn plan(t: Tier) -> Plan {
-    Plan::new(t.pick(3_000, 50_000), t.pick(3000, 4500))
+    Plan::new(t.pick(6_000, 80_000), t.pick(3000, 4500))
 }
 
 #[derive(Clone, Serialize, Deserialize)]
